@@ -16,20 +16,20 @@ ENGINES = {
 CHECKS = {
  "C05": ("E1", "model_checking",
    "stateless model checking (iterative deviation-bounded DFS over all schedules of the real code)",
-   "Every interleaving of task polls, reply arrivals (all permutations), send stalls, flush stalls and artificial yields inside the critical sections of Session::rpc/recv is executed on the real netconf::Session, for 2-5 pipelined requests in three future placements, up to the reported deviation bound (small cases to exhaustion); each execution is checked for message-id uniqueness, own-reply delivery, absence of lost wake-ups/deadlocks and a usable session afterwards.",
+   "Every interleaving of task polls, reply arrivals (all permutations), send stalls, flush stalls and artificial yields inside the critical sections of Session::rpc/recv is executed on the real netconf::Session, for 2-5 pipelined requests in three future placements, plus sends that fail before or after their bytes were delivered, up to the reported deviation bound (2- and 3-request cases to exhaustion in the thorough tier); each execution is checked for message-id uniqueness, own-reply delivery, absence of lost wake-ups/deadlocks and a usable session afterwards.",
    "tokio::sync::Mutex and the hand-written executor are trusted; transport queues are unbounded; preemption between two non-awaiting statements inside one section is not explored.", "DESIGN.md §2 E1"),
  "C18": ("E1", "model_checking",
    "stateless model checking (deviation-bounded DFS over schedules including future-drop actions)",
-   "As C05, plus a drop action for every designated reply future at every real suspension point (never polled, waiting for the receive lock, reading from the transport) and for every non-empty victim subset; survivors must complete with their own reply and a follow-up request must succeed.",
-   "Same trusted base as C05; a future is only dropped at a real await, never at an artificial yield.", "DESIGN.md §2 E1"),
+   "As C05, plus a drop action for every designated reply future at every real suspension point (never polled, waiting for the receive lock, reading from the transport) and for every non-empty victim subset; survivors must complete with their own reply and a follow-up request must succeed. The same scenario is then repeated on the real TLS, SSH and JunosLocal transports: a reader abandoned after every sampled prefix of the reply stream, the other request and a follow-up must still complete.",
+   "Same trusted base as C05; a future is only dropped at a real await, never at an artificial yield; on the real transports the drop point is a byte-stream prefix, not a scheduler choice.", "DESIGN.md §2 E1"),
  "C01": ("E2", "model_checking",
    "explicit-state model checking (BFS over reachable configurations; transitions executed by the real code)",
    "Breadth-first search from the empty instance over every configuration the agent itself can produce; each transition runs the agent's real parse-installed -> compare -> render pipeline for one input (per policy: unmanaged / evaluation failed / every subset of a colliding range alphabet per family) and applies the payloads to a reference Junos in every order; checks exact convergence, read-back by the agent's own reader, idempotence of a second run and equality with the state reached from the empty instance.",
-   "Reference Junos merge/delete semantics and get-config rendering are taken from the Junos XML protocol documentation and the repository's fixtures; evaluation is replaced by its result (E5 covers evaluation).", "DESIGN.md §2 E2"),
+   "Reference Junos merge/delete semantics and get-config rendering are taken from the Junos XML protocol documentation and the repository's fixtures; evaluation is replaced by its result (E5 covers evaluation); an end-to-end slice runs the real agent for six consecutive rounds (changing IRR data, a refused load) against fake Junos + fake IRRd and checks convergence and idempotence there too.", "DESIGN.md §2 E2"),
  "C02": ("E2", "model_checking",
    "explicit-state model checking (BFS; invariant checked after every single payload and every prefix of every order)",
    "Same exploration as C01; after each single update applied on its own to the fetched state, and after every prefix of every permutation of the update sequence, every touched policy must have only family-restricted accepting terms with explicit route-filters inside the evaluated set and end in reject, and the payload may address nothing outside configuration/policy-options/policy-statement.",
-   "Same trusted base as C01.", "DESIGN.md §2 E2"),
+   "Same trusted base as C01; an end-to-end slice runs the real agent binary body against the fake Junos server for an emptied family and an emptied policy.", "DESIGN.md §2 E2"),
  "C03": ("E2", "fault_enumeration",
    "exhaustive enumeration of failed-evaluation subsets over the BFS state space + malformed-annotation sweep",
    "In every reachable configuration every subset of candidates is marked 'evaluation failed': no payload may name them and their installed form must be unchanged; deletes may only name installed, unmanaged policies. Malformed annotations are driven through the real candidate reader and the real plan.",
@@ -40,7 +40,7 @@ CHECKS = {
    "The rpsl crate's parser defines 'parseable expression'.", "DESIGN.md §2 E2 (C16 sweep)"),
  "C08": ("E3", "exploration",
    "bounded-exhaustive enumeration of the reply grammar through the real session (all child sequences up to a length bound)",
-   "Every rpc-reply whose children are a sequence (length <= 3 quick / 4 thorough) over {positive indication, rpc-error of severity error / warning (plain and with every optional leaf), comment, foreign element, the other reply types' indication}, for each of the four reply types (ok, data, bare Junos, load-configuration with every placement inside/outside load-configuration-results and every load-error-count) is delivered to a real outstanding request; Ok requires the positive indication and no error-severity rpc-error anywhere, RpcError must list exactly the document's rpc-errors in order.",
+   "Every rpc-reply whose children are a sequence (length <= 4 quick / 5 thorough) over {positive indication, rpc-error of severity error / warning (plain and with every optional leaf), comment, foreign element, the other reply types' indication}, for each of the four reply types (ok, data, bare Junos, load-configuration with every placement inside/outside load-configuration-results and every load-error-count) is delivered to a real outstanding request; Ok requires the positive indication and no error-severity rpc-error anywhere, RpcError must list exactly the document's rpc-errors in order.",
    "Documents are drawn from the stated grammar, not all XML; quick-xml is the parser under test as used by the library.", "DESIGN.md §2 E3 C08"),
  "C09": ("E3", "exploration",
    "exhaustive capability-set x request-recipe matrix against an RFC 6241 table",
@@ -56,11 +56,11 @@ CHECKS = {
    "Characters XML 1.0 cannot carry and fragments that contain the delimiter themselves are outside the alphabet.", "DESIGN.md §2 E3 C10"),
  "C13": ("E3", "exploration",
    "bounded-exhaustive rewrite neighbourhoods (all single and pairwise information-preserving rewrites at every position) with a differential oracle",
-   "21 seed messages (hellos, every reply type, rpc-errors with all leaves, get-config data for both agent readers; accepted and rejected ones) x every applicable rewrite (namespace prefix vs default, inter-element whitespace, whitespace around token-valued text, comments, attribute order, quote style, XML declaration, empty-element form) at every position, singly and in pairs; each rewritten message goes through the real session (and the agent's real fetch path) and must give the same acceptance and the same Debug value as its seed.",
+   "21 seed messages (hellos, every reply type, rpc-errors with all leaves, get-config data for both agent readers; accepted and rejected ones) x every applicable rewrite (namespace prefix vs default, inter-element whitespace, whitespace around token-valued text, comments, attribute order, quote style, XML declaration, empty-element form) at every position, singly and in pairs (thorough: also triples of three different rewrite kinds); each rewritten message goes through the real session (and the agent's real fetch path) and must give the same acceptance and the same Debug value as its seed.",
    "The value of <get> is the raw <data> content by design, so only acceptance is compared there.", "DESIGN.md §2 E3 C13"),
  "C14": ("E3", "exploration",
    "exhaustive one-edit mutation neighbourhoods (every offset / element / attribute / numeric field) of seed messages under a per-case watchdog",
-   "Every truncation, every substitution of 8 hostile bytes at every offset, every element/attribute deletion, duplication and sibling swap, every numeric field replaced by 10 hostile values, and prefix/suffix splices of 21 seed messages are delivered as the hello, as the reply to one of two outstanding requests, or as a get-config reply to the agent's readers: no panic (catch_unwind), every future resolves within a poll budget and a 10 s watchdog, and the other outstanding request still receives its own reply.",
+   "Every truncation, every substitution of 8 hostile bytes at every offset, every element/attribute deletion, duplication and sibling swap, every numeric field replaced by 10 hostile values, and prefix/suffix splices of 21 seed messages are delivered as the hello, as the reply to one of two outstanding requests, or as a get-config reply to the agent's readers: no panic (catch_unwind), every future resolves within a poll budget and a 10 s watchdog, and the other outstanding request still receives its own reply; in a second variant unattributable garbage arrives after both replies (late) and a follow-up request must still succeed.",
    "One- and two-edit neighbourhoods of a finite seed set, not all byte strings; an abort (allocation failure, stack exhaustion) would be a machinery failure.", "DESIGN.md §2 E3 C14"),
  "C19": ("E7", "model_checking",
    "exhaustive exploration of outcome sequences x periods x signal plans of the real daemon loop in virtual time",
@@ -84,11 +84,11 @@ CHECKS = {
    "Evaluation order (HashMap iteration) is observed from the IRR query log, not forced; the repeat cap is reported.", "DESIGN.md §2 E6 C15"),
  "C06": ("E4", "exploration",
    "exhaustive enumeration of stream segmentations (cut positions, cut subsets of delimiter zones, groupings) against the real transports",
-   "On the real TLS (loopback, client certificates), SSH (netconf subsystem) and JunosLocal (stand-in cli, hook H2) transports the server hello and 1-3 pipelined replies are delivered in transport units cut at every position in and around each delimiter (every position of the stream in the thorough tier), at pairs and subsets of delimiter-zone cuts, byte by byte, and grouped several-per-unit; a unit is released only after the client consumed the previous one, and nothing follows the last byte of a message until it was handed to the session layer. Results must be exactly the messages, once, in order.",
+   "On the real TLS (loopback, client certificates), SSH (netconf subsystem) and JunosLocal (stand-in cli, hook H2) transports the server hello and 1-3 pipelined replies are delivered in transport units cut at every position in and around each delimiter (every position of the stream in the thorough tier), at pairs and subsets of delimiter-zone cuts, byte by byte, and grouped several-per-unit, including replies larger than the transports' read buffers (64 KiB and 1 MiB bodies cut around buffer boundaries); a unit is released only after the client consumed the previous one, and nothing follows the last byte of a message until it was handed to the session layer. Results must be exactly the messages, once, in order.",
    "Loopback only; read segmentation is verified through the client's own trace events on TLS and the pipe, and is by construction one packet per unit on SSH.", "DESIGN.md §2 E4 C06"),
  "C07": ("E4", "fault_enumeration",
    "exhaustive enumeration of close points x close kinds x outstanding requests against the real transports",
-   "On each real transport and for each close kind (clean / EOF / abort) the peer closes after every sampled (thorough: every) prefix of the hello, while the established session is idle, with 0-2 requests outstanding before any reply byte, after prefixes of the reply stream and between two replies; then a further request is issued. Every pending and subsequent operation must resolve within 2.5 s, without zero-length-read loops or CPU burn, and Ok is accepted only for replies that were completely delivered before the close.",
+   "On each real transport and for each close kind (clean / EOF / abort) the peer closes after every sampled (thorough: every) prefix of the hello, while the established session is idle, with 0-2 requests outstanding before any reply byte, after prefixes of the reply stream and between two replies, and (SSH) during connection setup before and after authentication; then a further request is issued. Every pending and subsequent operation must resolve within a watchdog calibrated per run (at least 1.5 s, 40x the measured establishment latency), without zero-length-read loops or CPU burn, and Ok is accepted only for replies that were completely delivered before the close.",
    "Real-time watchdog with three orders of magnitude of slack over loopback latency.", "DESIGN.md §2 E4 C07"),
  "C20": ("E4", "exploration",
    "exhaustive configuration matrix (transport x level x subscriber wiring x filter x outcome x secret) with an encoding search over the complete captured log",
